@@ -257,7 +257,7 @@ def _nontrivial_hint():
 
 WORKLOADS = [
     Workload(
-        name="history", run=run_history_c41, runs={"quick": 8_000, "thorough": 800_000}, chunk=200, run_timeout=60.0,
+        name="history", run=run_history_c41, runs={"quick": 30_000, "thorough": 800_000}, chunk=200, run_timeout=60.0,
         real=["porepy.utils.interpolation_tables.AdaptiveInterpolationTable (interpolate, gradient, _fill_values, quadrature_points_from_coordinates, _find_base_vertex with safeguarding)",
               "porepy.utils.interpolation_tables.InterpolationTable", "porepy.utils.array_operations.SparseNdArray / intersect_sets (the cache)"],
         stub=["none (reference models: the static table and the exact multilinear function)"],
